@@ -535,7 +535,7 @@ pub fn f_push(seed: u64, exhaustive_scripts: bool) -> Plan {
     plan.knobs = knobs(&mut rng, false, interval);
     let topic = topic_name("proj-p", 0);
     let n_push = rng.range(1, 3) as usize;
-    let dl = *rng.pick(&[10i32, 10, 12, 20]);
+    let dl = *rng.pick(&[10i32, 10, 12, 20, 30, 60]);
     let mut setup = vec![Step::new(Op::CreateTopic { topic: topic.clone() })];
     let mut push_subs = Vec::new();
     for j in 0..n_push {
@@ -578,6 +578,8 @@ pub fn f_push(seed: u64, exhaustive_scripts: bool) -> Plan {
         Behaviour::Delay(rng.range(1, 900), 200),
         Behaviour::Delay(rng.range(1, 900), 500),
         Behaviour::Delay((dl as u64) * 1000 + rng.range(200, 3000), 200),
+        // an answer that is slow but still inside a longer-than-default lease
+        Behaviour::Delay(if dl > 11 { rng.range(10_300, (dl as u64) * 1000 - 400) } else { rng.range(1_000, 9_000) }, 200),
         Behaviour::Never,
     ];
     if exhaustive_scripts {
@@ -616,7 +618,14 @@ pub fn f_push(seed: u64, exhaustive_scripts: bool) -> Plan {
         if !exhaustive_scripts && deleted.is_none() && rng.chance(150) {
             let victim = rng.pick(&push_subs).clone();
             deleted = Some(victim.clone());
-            scripts.push(vec![Step::after(rng.below(3_000_000), Op::DeleteSub { sub: victim })]);
+            let mut s = vec![Step::after(rng.below(3_000_000), Op::DeleteSub { sub: victim.clone() })];
+            if rng.chance(600) {
+                // re-created under the same name right away (inside one push interval) or a little later
+                let j: usize = victim.rsplit('-').next().and_then(|x| x.parse().ok()).unwrap_or(0);
+                s.push(Step::after(*rng.pick(&[0u64, 1_000, 50_000, 2_000_000]), Op::CreateSub { sub: victim.clone(), topic: topic.clone(), ack_deadline: dl, push: Some(PushSpec { endpoint: format!("http://push-{j}.test/hook"), attrs: Default::default(), oidc: None }) }));
+                s.push(Step::after(rng.below(100_000), Op::Publish { topic: topic.clone(), msgs: msgs_r(&mut rng, 1, 2, false) }));
+            }
+            scripts.push(s);
         }
         // the topic may be deleted while the push subscriptions still hold (rejected or fresh) messages
         if !exhaustive_scripts && !topic_deleted && ph + 1 == n_phases && rng.chance(200) {
@@ -642,6 +651,9 @@ pub fn f_push(seed: u64, exhaustive_scripts: bool) -> Plan {
 pub fn f_listing(seed: u64, big: bool) -> Plan {
     let mut rng = Rng::new(seed);
     let mut plan = Plan { seed, family: "listing".into(), final_drain: false, health_probe: false, ..Default::default() };
+    if !big {
+        plan.tags.push("audit_lists".into());
+    }
     plan.knobs = knobs(&mut rng, false, 0);
     // project ids that are prefixes of one another (a filter by prefix would leak across projects)
     let project_names = ["proj-list-0", "proj-list", "proj-list-00"];
@@ -673,7 +685,12 @@ pub fn f_listing(seed: u64, big: bool) -> Plan {
     let mut gone_topics: Vec<String> = Vec::new();
     for (s, _t) in subs.iter() {
         if rng.chance(200) {
-            deleter.push(Step::new(Op::DeleteSub { sub: s.clone() }));
+            let mut st = Step::new(Op::DeleteSub { sub: s.clone() });
+            // some deletes are abandoned by their client half-way
+            if !big && rng.chance(250) {
+                st.abandon_at = rng.range(1, 3) as u32;
+            }
+            deleter.push(st);
         }
     }
     for t in topics.iter() {
@@ -707,7 +724,7 @@ pub fn f_listing(seed: u64, big: bool) -> Plan {
     } else {
         plan.phases.push(Phase { scripts: vec![creator], advance_us: 0, audit: false });
     }
-    plan.phases.push(Phase { scripts: vec![deleter], advance_us: 0, audit: false });
+    plan.phases.push(Phase { scripts: vec![deleter], advance_us: 0, audit: !big });
     plan.phases.push(Phase { scripts: vec![recreate], advance_us: 0, audit: false });
     // the walks, with background data-plane traffic on the same topic actors
     let sizes: Vec<i32> = vec![-1, i32::MIN, 0, 1, 2, 19, 20, 21, 999, 1000, 1001, i32::MAX, n_topics as i32 - 1, n_topics as i32, n_topics as i32 + 1, n_subs.max(1) as i32];
@@ -1116,7 +1133,35 @@ pub fn f_hostile(seed: u64) -> Plan {
         Step::after(rng.below(2_000), Op::Pull { sub: sub2.clone(), max: 100, immediate: true }),
         Step::new(Op::Ack { sub: sub2.clone(), sel: sel_mine(Pick::LastResponse) }),
     ]);
+    // push mode: a healthy push subscription must keep being served whatever the hostile requests do
+    let push_mode = rng.chance(350);
+    if push_mode {
+        plan.knobs.push_interval_ms = *rng.pick(&[100u32, 1000]);
+        plan.tags.push("push".into());
+        let healthy = sub_name("proj-h", 0, 2);
+        plan.phases[0].scripts[0].push(Step::new(Op::CreateSub { sub: healthy, topic: topic.clone(), ack_deadline: 10, push: Some(PushSpec { endpoint: "http://ok.test/hook".into(), attrs: Default::default(), oidc: None }) }));
+        let mut s = Vec::new();
+        // endpoints that pass the "starts with http" check but are not URLs
+        if rng.chance(600) {
+            s.push(Step::after(rng.below(1_000), Op::CreateSub { sub: sub_name("proj-h", 0, 9), topic: topic.clone(), ack_deadline: 10, push: Some(PushSpec { endpoint: rng.pick(&["http//host.test/x", "httpfoo", "http://", "http:// host.test/with space", "https://[::bad"]).to_string(), attrs: Default::default(), oidc: None }) }));
+        }
+        // a cross-project create with a push config is rejected; its name is then used by a valid pull subscription
+        if rng.chance(600) {
+            let other_topic = "projects/other-proj/topics/other-topic".to_string();
+            let reuse = "projects/other-proj/subscriptions/reuse-me".to_string();
+            s.push(Step::new(Op::CreateTopic { topic: other_topic.clone() }));
+            s.push(Step::new(Op::CreateSub { sub: reuse.clone(), topic: topic.clone(), ack_deadline: 10, push: Some(PushSpec { endpoint: "http://stale.test/hook".into(), attrs: Default::default(), oidc: None }) }));
+            s.push(Step::new(Op::CreateSub { sub: reuse.clone(), topic: other_topic.clone(), ack_deadline: 10, push: None }));
+            s.push(Step::new(Op::Publish { topic: other_topic, msgs: msgs_r(&mut rng, 1, 2, false) }));
+        }
+        s.push(Step::after(rng.below(300_000), Op::Publish { topic: topic.clone(), msgs: msgs_r(&mut rng, 1, 2, false) }));
+        scripts.push(s);
+    }
     plan.phases.push(Phase { scripts, advance_us: *rng.pick(&[0u64, 1_000_000, 11_000_000]), audit: true });
+    if push_mode {
+        plan.phases.push(Phase { scripts: vec![vec![Step::new(Op::EndpointFaultsOff), Step::new(Op::Publish { topic: topic.clone(), msgs: msgs_r(&mut rng, 1, 2, false) })]], advance_us: 1_000_000 + 10_000_000 + 5_000_000, audit: true });
+        plan.final_drain = false;
+    }
     plan.phases.push(Phase { scripts: vec![vec![Step::new(Op::Pull { sub: sub.clone(), max: 100, immediate: true })]], advance_us: 0, audit: true });
     plan
 }
